@@ -1233,7 +1233,7 @@ func (u *Unit) inlineCall(st *State, fi *FuncInfo, targs []types.Type, args []Va
 		}
 		// several normal exits: join them into one state (values and state components become
 		// if-then-else terms over the exits' path conditions)
-		merged, rets, why := mergeExits(st, preAssume, preVars, normal)
+		merged, rets, why := mergeExits(st, preAssume, preVars, normal, u.initMem)
 		if why != "" {
 			u.errorf("%s: helper %s without contract has %d normal exits that cannot be joined (%s)", u.pos(call), fi.Key, len(normal), why)
 			return nil
@@ -1267,7 +1267,7 @@ func (u *Unit) framePropsFor(comp string) []string {
 // call (its assumptions are the call state's assumptions plus the path's own), so the joined state
 // assumes the call state's assumptions and the disjunction of the paths' own; a value or state
 // component that differs between exits becomes an if-then-else over those path conditions.
-func mergeExits(at *State, preAssume int, preVars map[types.Object]bool, exits []*Exit) (*State, []Value, string) {
+func mergeExits(at *State, preAssume int, preVars map[types.Object]bool, exits []*Exit, initMem map[string]*Term) (*State, []Value, string) {
 	var conds []*Term
 	for _, e := range exits {
 		if len(e.st.assume) < preAssume || len(e.st.guard) != len(at.guard) {
@@ -1304,7 +1304,7 @@ func mergeExits(at *State, preAssume int, preVars map[types.Object]bool, exits [
 		for i := len(exits) - 2; i >= 0; i-- {
 			t := get(exits[i].st)
 			if t == nil || t.Sort != r.Sort {
-				return nil, "components of different sorts"
+				return nil, fmt.Sprintf("components of different sorts: %q / %q", func() string { if t == nil { return "<nil>" }; return t.Sort }(), r.Sort)
 			}
 			if t.String() != r.String() {
 				r = Ite(conds[i], t, r)
@@ -1320,7 +1320,13 @@ func mergeExits(at *State, preAssume int, preVars map[types.Object]bool, exits [
 	}
 	for k := range keys {
 		k := k
-		t, why := iteT(func(s *State) *Term { return s.mem[k] })
+		// a component an exit never touched is still its initial symbol (components are created lazily)
+		t, why := iteT(func(s *State) *Term {
+			if t, ok := s.mem[k]; ok {
+				return t
+			}
+			return initMem[k]
+		})
 		if why != "" {
 			return nil, nil, "state component " + k + ": " + why
 		}
